@@ -150,14 +150,15 @@ Lemma step_good09 : forall s e, Good09 s -> ev_in09 e = true -> safe_ev09 s e = 
   Good09 (fst (step s e)) /\ expected09 e (snd (step s e)) = true.
 Proof.
   intros s e G I S. unfold Good09 in *.
-  destruct e as [T a n|T a n|T a n|T a n|m|c T|k T|T|T|T a]; simpl in I; try discriminate; simpl step.
+  destruct e as [T a n|T a n|T a n|T a n|m|c T|k T|T|T|T a]; unfold ev_in09 in I; try discriminate;
+    unfold step; unfold safe_ev09 in S.
   - (* Read *)
     split. { apply (apply_good lops09 [P1] safe09 expect09 R09 CHK09); auto. }
-    destruct T; simpl; auto.
+    destruct T; unfold expected09; auto.
     apply (apply_expect lops09 [P1] safe09 expect09 R09 CHK09 GRP09 s (LGet Pub a n)); auto.
   - (* Has *)
     split. { apply (apply_good lops09 [P1] safe09 expect09 R09 CHK09); auto. }
-    destruct T; simpl; auto.
+    destruct T; unfold expected09; auto.
     apply (apply_expect lops09 [P1] safe09 expect09 R09 CHK09 GRP09 s (LHas Pub a n)); auto.
   - (* Import *)
     assert (Hr : forall a n p, In (a, n, p) (import_reads m) ->
@@ -168,26 +169,26 @@ Proof.
     pose proof (do_reads_good lops09 [P1] safe09 expect09 R09 CHK09 (import_reads m) s Pub OSame G
                   (fun a n p H => conj (proj1 (Hr a n p H)) (proj1 (proj2 (Hr a n p H))))) as G1.
     pose proof (do_reads_same lops09 [P1] safe09 expect09 R09 CHK09 GRP09 (import_reads m) s Pub G eq_refl Hr) as O1.
-    destruct (do_reads s Pub (import_reads m) OSame) as [s1 o]. simpl in *. subst o. simpl. auto.
+    destruct (do_reads s Pub (import_reads m) OSame) as [s1 o]. cbn [fst snd] in *. subst o. split; [exact G1|reflexivity].
   - (* Calc *)
     destruct (exists_tab s T) eqn:E; [|split; [exact G| destruct T; reflexivity]].
     assert (Hr : forall a n p, In (a, n, p) (calc_reads c) ->
                  lop_in lops09 (LGet T a n) = true /\ (forall s', safe_at safe09 s' (LGet T a n) = true)).
     { intros a n p H. split; [eapply calc_reads_in; eauto|reflexivity]. }
     split. { apply (do_reads_good lops09 [P1] safe09 expect09 R09 CHK09); auto. }
-    destruct T; simpl; auto.
+    destruct T; unfold expected09; auto.
     rewrite (do_reads_same lops09 [P1] safe09 expect09 R09 CHK09 GRP09 (calc_reads c) s Pub G E); auto.
     intros a n p H. destruct (Hr a n p H) as [H1 H2]. split; auto. split; auto.
     intros t oc X. apply outcome_eqb_eq in X. exact X.
   - (* Init *)
     split. { apply (apply_good lops09 [P1] safe09 expect09 R09 CHK09); auto. }
-    destruct T; simpl; auto.
+    destruct T; unfold expected09; auto.
     apply (apply_expect lops09 [P1] safe09 expect09 R09 CHK09 GRP09 s (LInit k Pub)); auto.
   - (* New *)
     apply table_eqb_eq in I. subst T.
     destruct (exists_tab s P1) eqn:E; [split; [exact G|reflexivity]|].
     split; [|reflexivity].
-    apply (new_good lops09 [P1] safe09 expect09 R09 CHK09); simpl; auto.
+    apply (new_good lops09 [P1] safe09 expect09 R09 CHK09); [exact G|left; reflexivity|exact E].
   - destruct (exists_tab s T); split; auto.
   - destruct (exists_tab s T); split; auto.
 Qed.
@@ -207,10 +208,11 @@ Fixpoint all_expected09 (h : list event) (os : list outcome) : bool :=
 Lemma run_good09 : forall h s, Good09 s -> forallb ev_in09 h = true -> safe_run09 s h ->
   all_expected09 h (run s h) = true.
 Proof.
-  induction h as [|e r IH]; intros s G I S; simpl; auto.
-  simpl in I. apply andb_true_iff in I. destruct I as [I1 I2]. destruct S as [S1 S2].
+  induction h as [|e r IH]; intros s G I S; [reflexivity|].
+  cbn [forallb] in I. apply andb_true_iff in I. destruct I as [I1 I2]. destruct S as [S1 S2].
   destruct (step_good09 s e G I1 S1) as [G1 X1].
-  destruct (step s e) as [s1 o] eqn:St. simpl in *. rewrite X1. simpl. apply IH; auto.
+  cbn [run]. destruct (step s e) as [s1 o] eqn:St. cbn [fst snd] in *. cbn [all_expected09]. rewrite X1.
+  apply IH; auto.
 Qed.
 
 (* the partial theorem: over the whole C09 alphabet (public reads / hasattr / imports / calculators /
